@@ -153,8 +153,14 @@ def generate(rng, tier, index):
     def emit(r):
         path = os.path.join(r["dir"], r["file"])
         cfg_order.append(path)
-        lines = ["k %s" % r["id"]]
-        expect_k.append(r["id"])
+        val = r["id"]
+        if rng.random() < 0.3:
+            # a value with a character that some line splitters treat as a
+            # line boundary and the configuration grammar does not
+            val += rng.choice(["\x0c", "\x0b", "\x1c", "\x1e", "\x85",
+                               "\u2028", "\u2029"]) + "z"
+        lines = ["k %s" % val]
+        expect_k.append(val)
         for c in r["children"]:
             cpath = os.path.join(c["dir"], c["file"])
             c["ref"] = _spell(rng, r["dir"], cpath)
@@ -230,6 +236,9 @@ def generate(rng, tier, index):
             types.append("ctb")
         else:
             c1b = None
+    if rng.random() < 0.3:
+        top_lines.append('  <key name="od" datatype="string" '
+                         'default="left\u2028right"/>')
     top_lines += ['  <multikey name="k" datatype="string"/>',
                   '  <multisection type="st" name="*" attribute="s"/>']
     if have_b2:
@@ -488,6 +497,7 @@ def _execute(plan, out, root, root_b, scratch):
                 violation("wrong-result", "schema",
                           "schema by %s has types %r, expected %r"
                           % (entry, names, plan["types"]))
+            so["digest"] = canon.without_position_urls(so["digest"])
             if ref_digest is None:
                 ref_digest, schema = so["digest"], so["schema"]
             elif so["digest"] != ref_digest:
